@@ -254,6 +254,39 @@ pub fn run(ctx: &Ctx) -> Rep {
     }
     structured.sort_unstable();
     structured.dedup();
+    let extra_states: Vec<X>;
+    // field-structured sets (repeated / cancelling / complementary / carrying nibbles, bytes and words), every set
+    // within a 16-bit window, every low-prefix and high-suffix mask: count, validity, membership and the whole
+    // peel sequence of each, where a set operation written word by word (per-half sums, per-byte tables,
+    // smear-and-isolate tricks) goes wrong
+    {
+        let mut wide: Vec<u64> = drive::field_structured_u64(seed);
+        for k in 0..=64u32 {
+            let low = if k == 64 { u64::MAX } else { (1u64 << k) - 1 };
+            wide.push(low);
+            wide.push(!low);
+        }
+        if !ctx.smoke() {
+            drive::for_each_window_value(|v| wide.push(v));
+        }
+        wide.sort_unstable();
+        wide.dedup();
+        let parts = 64usize;
+        let step = if ctx.smoke() { 1009 } else { 1 };
+        let sw = par_run(ctx, parts, mk, |st, pi| {
+            for &s in wide.iter().skip(pi).step_by(parts * step) {
+                check_peel(st, s);
+                check_ops(st, s, s);
+                check_ops(st, s, s & s.wrapping_sub(1)); // all but the lowest member
+                check_ops(st, s, 1u64 << (s.trailing_zeros() % 64));
+                st.rep.distinct += 1;
+            }
+        });
+        let (rw, xw) = merge_states(sw);
+        rep.merge(rw);
+        extra_states = xw;
+        rep.add("field_structured_window_and_mask_sets", wide.len() as u64);
+    }
     let n_rand = 200_000 * scale;
     let chunks = 64usize;
     let sp = par_run(ctx, chunks + 1, mk, |st, ch| {
@@ -349,7 +382,7 @@ pub fn run(ctx: &Ctx) -> Rep {
     }
 
     let mut acc = mk();
-    for x in xh.into_iter().chain(xp) {
+    for x in xh.into_iter().chain(xp).chain(extra_states) {
         for k in 0..8 {
             acc.hands[k] += x.hands[k];
         }
